@@ -7,6 +7,9 @@ VERIF = os.path.dirname(os.path.dirname(os.path.abspath(__file__)))
 
 # id -> (technique, level text, level note, design ref)   -- only checks that exist under mc/checks are claimed
 CHECKS = {
+    "C17": ("exhaustive single-fault enumeration (every slot x every wrong-kind value) and bounded enumeration of arbitrary JSON parser inputs",
+            "Every minimal and maximal valid instance of every type of both spec versions x every slot (recursively through lists, embedded objects, extensions, containers) x 16 junk values of another JSON kind (incl. 600-level nesting that json.loads still decodes) x both allow_custom settings through parse(dict), parse(text), constructor, parse_observable, MemoryStore.add and FileSystemSink.add (thorough: pairs of replacements on minimal bases), plus every JSON object of depth <=2 over the key alphabet {type,id,objects,spec_version,extensions,x} with every registered type name and every wrong-kind type value, top-level scalars and malformed texts. Every call must terminate and return or raise STIXError/ValueError/TypeError; registries and stores must be unchanged after a failure.",
+            "trusted: instances from the frozen spec model; deep nesting that only defeats the JSON writer of a store is treated as resource exhaustion (not asserted)", "DESIGN.md §3 C17"),
     "C01": ("bounded exhaustive enumeration of objects x serialization option sets, round-trip chain followed to its fixed point",
             "Every generated valid instance of every type of both spec versions (frozen spec model; deviation bound 1, thorough 2), objects with custom properties / extensions, harness-registered custom object, observable, extension, top-level extension and marking types, bundles of all minimal objects, bundles with unregistered dicts, an observed-data container holding every 2.0 SCO, and 180 timestamp transplants (values moved between properties of different precision, as string / datetime / library value) are serialized under the 26 option sets, parsed back without naming the version and serialized again (two iterations). Clauses: strict JSON, same class and equal, byte-identical text, all option sets denote the same JSON value modulo spec-default optionals (recursive), pretty output in frozen specification order, canonical timestamps.",
             "trusted: frozen spec model for instances, key order and defaults; equality is the library's own Mapping equality plus class identity", "DESIGN.md §3 C01"),
